@@ -837,6 +837,26 @@ def _neighbours_as_range(lc: tuple) -> tuple:
         return lc
     X = s0[1]
     n = atom(('call', 'len', (atom(X),)))
+    if X[0] == 'sub' and isinstance(X[2], tuple) and X[2][:1] == ('slice',) and X[2][3] is None:
+        # the neighbours of a slice S[a:b] with 0 <= a and b = len(S) - c, c >= 0 (no clamping, no wrap-around wherever S has
+        # at least c elements): len(S[a:b]) is b - a for the purpose of the range below (a negative difference and the
+        # clamped 0 both give an empty range), element k is S[a + k]
+        S_, (_, a_, b_, _st) = X[1], X[2]
+        nS = atom(('call', 'len', (atom(S_),)))
+        a_ = ZERO if a_ is None else a_
+        b_ = nS if b_ is None else b_
+        if is_const(a_) and const_value(a_) >= 0 and is_const(sub(b_, nS)) and const_value(sub(b_, nS)) <= 0:
+            nX = sub(b_, a_)
+            _, lo0, hi0, st0 = s0[2]
+            _, lo1, hi1, st1 = s1[2]
+            # the slice bounds were resolved against len(X) as an opaque call: compare with that spelling
+            first_ok = (lo0 is None or lo0 == ZERO) and hi0 == sub(n, ONE) and st0 is None
+            second_ok = lo1 == ONE and (hi1 is None or hi1 == n) and st1 is None
+            if first_ok and second_ok:
+                ph = atom(('bound', 99))
+                elt = subst_atoms(lc[1], {('bound', 1): atom(('sub', S_, add(ph, ONE))), ('bound', 0): atom(('sub', S_, ph))})
+                elt = subst_atoms(elt, {('bound', 99): atom(('bound', 0))})
+                return ('listcomp', elt, ((atom(('call', 'range', (a_, sub(add(a_, nX), ONE)))), (0,), ()),))
     _, lo0, hi0, st0 = s0[2]
     _, lo1, hi1, st1 = s1[2]
     first_ok = (lo0 is None or lo0 == ZERO) and hi0 == sub(n, ONE) and st0 is None
